@@ -62,7 +62,7 @@ def build(src, g):
     base = src.cls('BaseToken')
     table = {}
     for ci in [base] + list(src.subclasses(base)) + [lx]:
-        table[ci.name] = {'mro': [c.name for c in src.mro(ci)], 'attrs': dict(ci.attrs), 'methods': {n: m.node for n, m in ci.methods.items()}}
+        table[ci.name] = {'mro': [getattr(c, 'name', str(c)) for c in src.mro(ci)], 'attrs': dict(ci.attrs), 'methods': {n: m.node for n, m in ci.methods.items()}}
         for st in ci.module.tree.body:
             if isinstance(st, ast.FunctionDef):
                 ev.functions.setdefault(st.name, st)
